@@ -186,6 +186,10 @@ def rule_typeguard(ctx):
     ctx.ob("TYPE-GUARD", "a valid_type test exists in Display::fmt", found == 1, fn=key, detail="found %d" % found)
     from .common import raw_type_alphabet_obligation
     raw_type_alphabet_obligation(ctx, facts, "TYPE-GUARD")
+    # "`pkg:` + lower-case type": what Display prints is what the type parameter stored, and the built-in ones store it
+    # ASCII-lower-cased (C13's sibling obligations; PackageType's names are lower-case by the table rules of C15)
+    from . import C04
+    C04.rule_typevalid(ctx, rule="TYPE-GUARD", alphabet=False)
 
 
 def rule_escset(ctx):
